@@ -7,7 +7,9 @@ Shape of the result. In a zone of constant UTC offset and inside the representab
 statement holds of the model of the code (boundary, strictly-after, firing, rescheduling, delay,
 no panic). The unconditional statement is false of the code: `C16_no_panic_statement_false`
 (DST overlap, absurd interval) and `C16_after_now_statement_false` (day unit on a 25-hour day);
-both negations are proved on witnesses observed on the real crate.
+both negations are proved on witnesses observed on the real crate. The repaired algorithm
+(`getNextTimeFixed`, selected by `codeFixed`) satisfies the full statements in every zone:
+`C16_no_panic_fixed`, `C16_after_now_fixed`, `C16_boundary_fixed_*`, `C16_trigger_fixed`.
 -/
 namespace Log4rs.TimeTrigger
 
@@ -480,6 +482,233 @@ theorem C16_after_now_statement_false : ¬ C16_after_now_statement := by
 theorem C16_fires_on_every_record_on_long_day :
     (run (.live 1792965600) [(1792967410, .ok 1792965600), (1792967420, .ok 1792965600)]).map (·.1)
       = [.ok true, .ok true] := by decide
+
+/-! ### the repaired code (`getNextTimeFixed`, `scheduleFixed`, `runFixed`): the full statements
+
+The statements that are false of the current code (`C16_no_panic_statement`,
+`C16_after_now_statement`) hold of the repaired algorithm without any hypothesis on the zone. -/
+
+/-- FULL no-panic statement for the repaired code: every civil decomposition, every answer of
+chrono (any zone, any DST transition), every unit, every multiplier (even below 1), both modes. -/
+theorem C16_no_panic_fixed (c : Civil) (e : Env) (u : IUnit) (n : Int) (m : Bool) :
+    ∃ t, getNextTimeFixed c e u n m = .ok t := by
+  obtain ⟨r, hr⟩ := checkedNextFixed_no_panic c e u n m
+  unfold getNextTimeFixed
+  rw [hr, bind_ok]
+  cases r
+  · exact ⟨_, rfl⟩
+  · simp only []; split <;> exact ⟨_, rfl⟩
+
+/-- FULL strictly-after statement for the repaired code: unconditional in zone, unit, multiplier
+and chrono's answers; the only hypothesis is that the clock is before the "never" instant
+(9999-12-31T23:59:59Z). -/
+theorem C16_after_now_fixed (c : Civil) (e : Env) (u : IUnit) (n : Int) (m : Bool) (hnow : e.now < FAR) :
+    ∃ t, getNextTimeFixed c e u n m = .ok t ∧ e.now < t := by
+  obtain ⟨r, hr⟩ := checkedNextFixed_no_panic c e u n m
+  unfold getNextTimeFixed
+  rw [hr, bind_ok]
+  cases r
+  · exact ⟨_, rfl, hnow⟩
+  · rename_i t
+    simp only []
+    by_cases h : t > e.now
+    · exact ⟨t, by simp [h], h⟩
+    · exact ⟨FAR, by simp [h], hnow⟩
+
+/-- Hour, minute, second in ANY zone: with `off` the UTC offset at `current`, the schedule is the
+instant whose rendering under that same offset is the specification's boundary — so wherever the
+offset does not change before it, it falls on the unit boundary in local time. No answer of
+chrono about local times is involved (the unit start is found on the UTC time line). -/
+theorem C16_boundary_fixed_subday (c : Civil) (e : Env) (off : Int) (u : IUnit)
+    (hu : u = .second ∨ u = .minute ∨ u = .hour) (n : Int) (m : Bool) (hn : 1 ≤ n)
+    (hsec : c.second = e.L % 60) (hmin : c.minute = e.L / 60 % 60) (hhour : c.hour = e.L / 3600 % 24)
+    (hnow : e.now = e.L - off) (hdur : n * unitSecs u ≤ DUR_MAX)
+    (hlo : DT_MIN ≤ e.now) (hhi : e.now + n * unitSecs u ≤ DT_MAX) :
+    getNextTimeFixed c e u n m = .ok (expectedLocal c e.L u n m - off) := by
+  have hmod := incVal_mod (fieldOf c u) n
+  generalize hq : (fieldOf c u / n + 1) * n = q at hmod
+  obtain ⟨hi1, hi2⟩ := incVal_bounds (f := fieldOf c u) m hn
+  simp only [DUR_MAX, DT_MIN, DT_MAX] at hdur hlo hhi
+  rcases hu with rfl | rfl | rfl <;> simp only [fieldOf, unitSecs] at hdur hhi hmod hq hi1 hi2
+  · -- second
+    have hnb : n ≤ I64_MAX := by simp only [I64_MAX]; omega
+    have hsp := spanFixed_ok (count := incVal c.second n m) (unit := 1) (by omega) (by simp only [DUR_MAX]; omega)
+    have hr : DT_MIN ≤ e.now + (incVal c.second n m * 1 - 0) ∧ e.now + (incVal c.second n m * 1 - 0) ≤ DT_MAX := by
+      simp only [DT_MIN, DT_MAX]; omega
+    have hgt : e.now + (incVal c.second n m * 1 - 0) > e.now := by omega
+    simp only [getNextTimeFixed, checkedNextFixed, incFixed_eq m hn (by omega : 0 ≤ c.second) hnb,
+      unitStartPlus, hsp, bind_ok, hr, and_self, if_true, hgt]
+    simp only [expectedLocal, startOfPeriod, startOfUnit, fieldOf, unitSecs, hq]
+    cases m <;> simp [incVal] at hmod ⊢ <;> omega
+  · -- minute
+    have hnb : n ≤ I64_MAX := by simp only [I64_MAX]; omega
+    have hsp := spanFixed_ok (count := incVal c.minute n m) (unit := 60) (by omega) (by simp only [DUR_MAX]; omega)
+    have hr : DT_MIN ≤ e.now + (incVal c.minute n m * 60 - c.second) ∧ e.now + (incVal c.minute n m * 60 - c.second) ≤ DT_MAX := by
+      simp only [DT_MIN, DT_MAX]; omega
+    have hgt : e.now + (incVal c.minute n m * 60 - c.second) > e.now := by omega
+    simp only [getNextTimeFixed, checkedNextFixed, incFixed_eq m hn (by omega : 0 ≤ c.minute) hnb,
+      unitStartPlus, hsp, bind_ok, hr, and_self, if_true, hgt]
+    simp only [expectedLocal, startOfPeriod, startOfUnit, fieldOf, unitSecs, hq]
+    cases m <;> simp [incVal] at hmod ⊢ <;> omega
+  · -- hour
+    have hnb : n ≤ I64_MAX := by simp only [I64_MAX]; omega
+    have hsp := spanFixed_ok (count := incVal c.hour n m) (unit := 3600) (by omega) (by simp only [DUR_MAX]; omega)
+    have hr : DT_MIN ≤ e.now + (incVal c.hour n m * 3600 - (c.minute * 60 + c.second))
+        ∧ e.now + (incVal c.hour n m * 3600 - (c.minute * 60 + c.second)) ≤ DT_MAX := by
+      simp only [DT_MIN, DT_MAX]; omega
+    have hgt : e.now + (incVal c.hour n m * 3600 - (c.minute * 60 + c.second)) > e.now := by omega
+    simp only [getNextTimeFixed, checkedNextFixed, incFixed_eq m hn (by omega : 0 ≤ c.hour) hnb,
+      unitStartPlus, hsp, bind_ok, hr, and_self, if_true, hgt]
+    simp only [expectedLocal, startOfPeriod, startOfUnit, fieldOf, unitSecs, hq]
+    cases m <;> simp [incVal] at hmod ⊢ <;> omega
+
+/-- Day and week in ANY zone: unless the boundary's local time falls in a DST gap, the schedule is
+an instant chrono offers for exactly the specification's local boundary (local midnight, Monday
+aligned for weeks) — or "never" if that instant were not after `current`. -/
+theorem C16_boundary_fixed_day_week (c : Civil) (e : Env) (u : IUnit) (hu : u = .day ∨ u = .week)
+    (n : Int) (m : Bool) (hn : 1 ≤ n) (hf : 0 ≤ fieldOf c u) (hwd : 0 ≤ c.weekday ∧ c.weekday ≤ 6)
+    (hdur : n * unitSecs u ≤ DUR_MAX)
+    (hlo : DT_MIN + 518400 ≤ e.L - e.L % 86400) (hhi : e.L + n * unitSecs u ≤ DT_MAX)
+    (hgap : e.mkL (expectedLocal c e.L u n m) ≠ .none) :
+    ∃ t, Occurrence e.mkL (expectedLocal c e.L u n m) t
+      ∧ getNextTimeFixed c e u n m = .ok (if t > e.now then t else FAR) := by
+  have htgt := target_day_week c e.L u hu n m
+  obtain ⟨t, hres, hocc⟩ := resolveAfter_occurrence (now := e.now) 199 hgap
+  refine ⟨t, hocc, ?_⟩
+  obtain ⟨hi1, hi2⟩ := incVal_bounds (f := fieldOf c u) m hn
+  simp only [DUR_MAX, DT_MIN, DT_MAX] at hdur hlo hhi
+  have hnb : n ≤ I64_MAX := by
+    rcases hu with rfl | rfl <;> simp only [unitSecs] at hdur <;> simp only [I64_MAX] <;> omega
+  rcases hu with rfl | rfl <;> simp only [fieldOf, unitSecs] at hdur hhi hi1 hi2 hf
+  · -- day
+    simp only [if_false, reduceCtorEq] at htgt
+    have hsp := spanFixed_ok (count := incVal c.ordinal0 n m) (unit := 86400) (by omega) (by simp only [DUR_MAX]; omega)
+    have hr : DT_MIN ≤ e.L - e.L % 86400 + incVal c.ordinal0 n m * 86400
+        ∧ e.L - e.L % 86400 + incVal c.ordinal0 n m * 86400 ≤ DT_MAX := by simp only [DT_MIN, DT_MAX]; omega
+    rw [htgt] at hr
+    simp only [getNextTimeFixed, checkedNextFixed, incFixed_eq m hn hf hnb, midnightPlus, hsp, bind_ok, hr,
+      and_self, if_true, htgt, hres]
+    split <;> rfl
+  · -- week
+    simp only [if_true] at htgt
+    have h7 : inI64 (incVal c.week0 n m * 7) = true ∧ inI64 (incVal c.week0 n m * 7 - c.weekday) = true := by
+      constructor <;> (unfold inI64; exact decide_eq_true (by simp only [I64_MIN, I64_MAX]; omega))
+    have hsp := spanFixed_ok (count := incVal c.week0 n m * 7 - c.weekday) (unit := 86400) (by omega)
+      (by simp only [DUR_MAX]; omega)
+    have hr : DT_MIN ≤ e.L - e.L % 86400 + (incVal c.week0 n m * 7 - c.weekday) * 86400
+        ∧ e.L - e.L % 86400 + (incVal c.week0 n m * 7 - c.weekday) * 86400 ≤ DT_MAX := by
+      simp only [DT_MIN, DT_MAX]; omega
+    rw [htgt] at hr
+    simp only [getNextTimeFixed, checkedNextFixed, incFixed_eq m hn hf hnb, h7, and_self, if_true, midnightPlus,
+      hsp, bind_ok, hr, htgt, hres]
+    split <;> rfl
+
+/-- … and where the offset does not change in between (chrono resolves the boundary's local time
+with the offset `off` of `current`) the schedule is that boundary, in UTC seconds. -/
+theorem C16_boundary_fixed_day_week_same_offset (c : Civil) (e : Env) (off : Int) (u : IUnit)
+    (hu : u = .day ∨ u = .week) (n : Int) (m : Bool) (hn : 1 ≤ n) (hf : 0 ≤ fieldOf c u)
+    (hwd : 0 ≤ c.weekday ∧ c.weekday ≤ 6) (hdur : n * unitSecs u ≤ DUR_MAX)
+    (hlo : DT_MIN + 518400 ≤ e.L - e.L % 86400) (hhi : e.L + n * unitSecs u ≤ DT_MAX)
+    (hnow : e.now = e.L - off)
+    (hmk : e.mkL (expectedLocal c e.L u n m) = .single (expectedLocal c e.L u n m - off)) :
+    getNextTimeFixed c e u n m = .ok (expectedLocal c e.L u n m - off) := by
+  obtain ⟨t, hocc, hres⟩ := C16_boundary_fixed_day_week c e u hu n m hn hf hwd hdur hlo hhi (by rw [hmk]; simp)
+  have ht : t = expectedLocal c e.L u n m - off := by
+    rcases hocc with h | ⟨a, b, h, _⟩
+    · rw [hmk] at h; cases h; rfl
+    · rw [hmk] at h; cases h
+  subst ht
+  -- the boundary is after `current` in local time
+  have hgt : expectedLocal c e.L u n m > e.L := by
+    obtain ⟨hi1, _⟩ := incVal_bounds (f := fieldOf c u) m hn
+    rw [← target_day_week c e.L u hu n m]
+    rcases hu with rfl | rfl <;> simp [fieldOf] at hi1 ⊢ <;> omega
+  rw [hres, if_pos (by omega)]
+
+/-- Month and year in any zone where the target date exists and is not in a gap: the schedule is
+an instant chrono offers for local midnight of the first of the specification's month. With the
+same offset as `current` (`hmk`) and a calendar in which a later month starts later (`hlater`) it is
+exactly that boundary. -/
+theorem C16_boundary_fixed_calendar (c : Civil) (e : Env) (off : Int) (u : IUnit)
+    (hu : isCalendarUnit u = true) (n : Int) (m : Bool) (hn : 1 ≤ n)
+    (hy : 0 ≤ c.year) (hm0 : 0 ≤ c.month0 ∧ c.month0 ≤ 11) (hb : c.year + n ≤ I32_MAX)
+    (lt : Int) (hnaive : e.naiveOf (civilOfMonthIndex (expectedMonthIndex c u n m)) = some lt)
+    (hmk : e.mkL lt = .single (lt - off)) (hnow : e.now = e.L - off) (hlater : e.L < lt) :
+    getNextTimeFixed c e u n m = .ok (lt - off) := by
+  simp only [I32_MAX] at hb
+  have hnb : n ≤ I64_MAX := by simp only [I64_MAX]; omega
+  have hres : resolveAfter e.mkL e.now 200 lt = some (lt - off) := by
+    show resolveAfter e.mkL e.now (199 + 1) lt = _
+    unfold resolveAfter; rw [hmk]
+  have hgt : lt - off > e.now := by omega
+  cases u <;> simp [isCalendarUnit] at hu
+  · -- month
+    obtain ⟨hi1, hi2⟩ := incVal_bounds (f := c.month0) m hn
+    have hmod := incVal_mod c.month0 n
+    have hidx : expectedMonthIndex c .month n m = incVal c.month0 n m + (c.year * 12 + c.month0) := by
+      generalize hq : (c.month0 / n + 1) * n = q at hmod
+      cases m <;> simp [expectedMonthIndex, incVal, hq] at hmod ⊢ <;> omega
+    rw [hidx] at hnaive
+    simp only [civilOfMonthIndex] at hnaive
+    have h1 : inI64 (incVal c.month0 n m + (c.year * 12 + c.month0)) = true := by
+      unfold inI64; exact decide_eq_true (by simp only [I64_MIN, I64_MAX]; omega)
+    have h2 : I32_MIN ≤ (incVal c.month0 n m + (c.year * 12 + c.month0)) / 12
+        ∧ (incVal c.month0 n m + (c.year * 12 + c.month0)) / 12 ≤ I32_MAX := by
+      simp only [I32_MIN, I32_MAX]; omega
+    simp only [getNextTimeFixed, checkedNextFixed, incFixed_eq m hn hm0.1 hnb, h1, if_true, firstOfMonth, h2,
+      and_self, hnaive, hres, bind_ok, hgt]
+  · -- year
+    obtain ⟨hi1, hi2⟩ := incVal_bounds (f := c.year) m hn
+    have hmod := incVal_mod c.year n
+    have hidx : expectedMonthIndex c .year n m = (incVal c.year n m + c.year) * 12 := by
+      generalize hq : (c.year / n + 1) * n = q at hmod
+      cases m <;> simp [expectedMonthIndex, incVal, hq] at hmod ⊢ <;> omega
+    rw [hidx] at hnaive
+    simp only [civilOfMonthIndex] at hnaive
+    have h1 : inI64 (incVal c.year n m + c.year) = true ∧ inI64 ((incVal c.year n m + c.year) * 12) = true := by
+      constructor <;> (unfold inI64; exact decide_eq_true (by simp only [I64_MIN, I64_MAX]; omega))
+    have h2 : I32_MIN ≤ (incVal c.year n m + c.year) * 12 / 12 ∧ (incVal c.year n m + c.year) * 12 / 12 ≤ I32_MAX := by
+      simp only [I32_MIN, I32_MAX]; omega
+    simp only [getNextTimeFixed, checkedNextFixed, incFixed_eq m hn hy hnb, h1, and_self, if_true, firstOfMonth, h2,
+      hnaive, hres, bind_ok, hgt]
+
+/-! ### the repaired trigger: fires once per boundary in every zone -/
+
+/-- The whole repaired trigger, in EVERY zone and for every configuration: whatever chrono answers
+at each arrival, whatever the unit, multiplier, mode and (non-negative) random delays, and whatever
+the arrival times (before the "never" instant), the run is a `GoodRun` — it fires exactly on
+arrivals at or after the schedule, reschedules strictly after them, and never panics. -/
+theorem C16_trigger_fixed (u : IUnit) (n : Int) (m : Bool) (maxDelay : Int) (steps : List (Int × Out Int))
+    (hsteps : ∀ p ∈ steps, p.1 < FAR ∧ ∃ (c : Civil) (e : Env) (d : Int), e.now = p.1 ∧ 0 ≤ d
+      ∧ p.2 = scheduleFixed (getNextTimeFixed c e u n m) maxDelay d) (s : Int) :
+    GoodRun s (steps.map (·.1)) (runFixed (.live s) steps) := by
+  have hfut : ∀ p ∈ steps, ∃ t, p.2 = .ok t ∧ p.1 < t := by
+    intro p hp
+    obtain ⟨hfar, c, e, d, hnow, hd, hp2⟩ := hsteps p hp
+    obtain ⟨t, ht, hlt⟩ := C16_after_now_fixed c e u n m (by omega)
+    obtain ⟨t', ht', hle⟩ := scheduleFixed_ok t maxDelay d hd
+    exact ⟨t', by rw [hp2, ht, ht'], by omega⟩
+  rw [runFixed_eq_run steps (fun p hp => let ⟨t, ht, _⟩ := hfut p hp; ⟨t, ht⟩)]
+  exact C16_fires_once steps hfut s
+
+/-- test (sample), the F12 witness under the repaired algorithm: Europe/Berlin 2026-10-25 23:30 CET,
+1 day: the schedule is local midnight 2026-10-26 00:00 CET = 23:00:00Z, half an hour ahead -/
+example : getNextTimeFixed berlinLongDay
+    { L := 1792971000, now := 1792967400, naiveOf := fun _ => none,
+      mkL := fun l => if l = 1792972800 then .single 1792969200 else .none } .day 1 false
+    = .ok 1792969200 := by decide
+
+/-- test (sample), the F9 witness under the repaired algorithm: 02:30 CEST (first occurrence), 1 hour:
+the unit started 30 minutes ago on the UTC time line, the schedule is 01:00:00Z = 02:00 CET; chrono
+is not asked about any local time -/
+example : getNextTimeFixed berlinOverlap
+    { L := 1792895400, now := 1792888200, naiveOf := fun _ => none, mkL := fun _ => .none } .hour 1 false
+    = .ok 1792890000 := by decide
+
+/-- test (sample): an absurd interval saturates to "never" instead of panicking -/
+example : getNextTimeFixed berlinOverlap
+    { L := 1792895400, now := 1792888200, naiveOf := fun _ => none, mkL := fun _ => .none } .second I64_MAX false
+    = .ok FAR := by decide
 
 /-! ### non-vacuity: the hypotheses hold on concrete non-trivial inputs -/
 
